@@ -99,6 +99,7 @@ def fmt(t, draw_k, draw_i, draw_c, u):
 class TimeTravelHistory(RuleBasedStateMachine):
     last_failure = None
     stats = None
+    mode = 'diff'
 
     def __init__(self):
         super().__init__()
@@ -169,6 +170,29 @@ class TimeTravelHistory(RuleBasedStateMachine):
         self.checked_upto = len(self.segments)
         src = self.source()
         st_ = type(self).stats
+        if type(self).mode == 'halt':
+            # C03: only the invariant "never a committed halt", checked and (on fault-free runs) unchecked
+            from harness.execute import execute
+            import svm
+            args = [str(x) for x in self.argv]
+            for unchecked in (False, True):
+                r = execute(src, args, ws=self.ws, unchecked=unchecked, budget=1_500_000)
+                if st_ is not None:
+                    st_.evaluated()
+                    st_.cls('machine_steps_' + ('unchecked' if unchecked else 'checked'))
+                    if r.res is not None and r.res.averted:
+                        st_.nt('MH:' + src[len(PRELUDE):] + repr(self.argv) + str(self.ws) + str(unchecked))
+                if r.outcome == svm.BUDGET or (unchecked and r.res is not None and r.res.faults):
+                    break
+                if r.outcome != svm.FOREVER:
+                    type(self).last_failure = {'kind': 'machine', 'source': src, 'argv': list(self.argv), 'ws': self.ws, 'unchecked': unchecked,
+                                               'message': 'ws=%d argv=%r unchecked=%s after %d segments: machine ended %s after events %r\n%s' % (
+                                                   self.ws, self.argv, unchecked, len(self.segments), r.outcome, r.events[-6:], src),
+                                               'signature': 'machine-halt'}
+                    raise Failure(r.outcome)
+                if set(r.flags) & {'stack_overflow', 'division_by_zero', 'out_of_bounds', 'nonlocal_preempt'}:
+                    break
+            return
         try:
             v = check_source_program(src, [list(self.argv)], self.ws, ref_budget=400_000)
         except Discard as d:
@@ -191,8 +215,9 @@ class TimeTravelHistory(RuleBasedStateMachine):
             raise Failure(v.msg)
 
 
-def run_machine(seed, max_examples, stats, steps=8, shrink=True):
+def run_machine(seed, max_examples, stats, steps=8, shrink=True, mode='diff'):
     TimeTravelHistory.stats = stats
+    TimeTravelHistory.mode = mode
     TimeTravelHistory.last_failure = None
     phases = [Phase.generate] + ([Phase.shrink] if shrink else [])
     cfg = settings(max_examples=max_examples, stateful_step_count=steps, database=None, deadline=None, derandomize=False,
@@ -206,6 +231,7 @@ def run_machine(seed, max_examples, stats, steps=8, shrink=True):
             stats.violation(TimeTravelHistory.last_failure)
     finally:
         TimeTravelHistory.stats = None
+        TimeTravelHistory.mode = 'diff'
 
 
 def replay_machine(case):
